@@ -58,7 +58,8 @@ def run(rep, work, tier, seed):
         "scopes are created and entered at once (a scope object that is constructed and never entered keeps its "
         "parent's completion pending forever - observed, not judged by C09)",
         "garbage-collection driven paths (ScopeMetrics.__del__) are outside the model",
-        "sync callbacks for odd scope ids, async callbacks (run_coroutine_threadsafe on the same loop) for even ones",
+        "sync callbacks for odd scope ids, async callbacks (run_coroutine_threadsafe on the same loop) for even ones; "
+        "every third callback raises after it has looked (that must not fail an exit or stop enclosing completions)",
     ]
     return rep.finish(exhaustive=True,
                       rule="every linearisation of open (sync/async scope) / close / start task (spawn|plain) / end / tick "
